@@ -926,15 +926,55 @@ def decscale_rule(ctx):
             if strip_generics(cname(t)).endswith('Option::map_or') and any(call_matches(c, ['slice::<impl [T]>::get']) for c in origin(h, t['args'][0]).calls):
                 do = origin(h, t['args'][1])
                 is_const = len(do.atoms) == 1 and all(a[0] == 'const' for a in do.atoms) and not do.flags
-                defaults.append((is_const, sorted(str(a[1]) for a in do.atoms)))
+                defaults.append((is_const, sorted(str(a[1]) for a in do.atoms), bb))
         # the loop conditions use map_or(false, ..); the keep-one-byte tests use map_or(true, ..): none may be computed
         if defaults:
             computed = [d for d in defaults if not d[0]]
             trues = [d for d in defaults if d[0] and d[1] in (['True'], ['true'], ['1'])]
+            # ... per sign: each scan loop (default false: the scan stops at the end) is followed by its own keep-one-byte
+            # test (default true: at the end of the buffer one byte stays)
+            from ..inventory import natural_loops
+            lp_ = natural_loops(h)
+            inl = lambda bb_: any(bb_ in blk_ for blk_ in lp_.values())
+            scans = [d for d in defaults if inl(d[2])]
+            keeps = [d for d in defaults if not inl(d[2])]
+            paired = bool(scans) and len(scans) == len(keeps) and all(d[1] in (['False'], ['false'], ['0']) for d in scans) and \
+                all(d[1] in (['True'], ['true'], ['1']) for d in keeps)
+            ctx.ob('DECSCALE', 'serialize/truncation-keeps-a-byte-at-end/per-sign', paired, short_loc(h.span),
+                   'scan loops (end-of-buffer default false): %d; keep-one-byte tests after them (default true): %d of %d' % (
+                       len(scans), sum(1 for d in keeps if d[1] in (['True'], ['true'], ['1'])), len(keeps)))
             ctx.ob('DECSCALE', 'serialize/truncation-keeps-a-byte-at-end', not computed and len(trues) >= 1, short_loc(h.span),
                    'end-of-buffer defaults of the sign-byte scans: %s; computed (non-constant) defaults: %d; constant-true (keep one byte) defaults: %d' % (
                        [d[1] for d in defaults], len(computed), len(trues)))
     ctx.ob('DECSCALE', 'serialize/fixed-fit-check', fit, loc0, 'truncatable prefix compared with the bytes to drop (checked_sub result): %s' % fit)
+    # a fixed of size 0 holds the number zero and nothing else: where the whole 16-byte buffer is dropped (no byte left
+    # to run the fit check on) the unscaled value itself is compared with 0 - zero goes on, anything else is an error
+    from .c19 import _CMP
+    zero_only = None
+    for b in mod:
+        if not any('can_truncate_without_altering_number' in cname(t) for bb, t in b.calls()):
+            continue
+        for bb in sorted(b.live_blocks()):
+            if b.term(bb)['k'] != 'switch' or b.is_cleanup(bb):
+                continue
+            si = b.switch_info(bb)
+            if si.get('kind') == 'enum':
+                continue
+            cond = switch_condition(b, si)
+            neg = False
+            while cond[0] == 'not':
+                neg, cond = not neg, cond[1]
+            if cond[0] != 'cmp' or cond[1] not in _CMP:
+                continue
+            lo, ro = origin(b, cond[2]), origin(b, cond[3])
+            if not (lo.params() and not lo.fields and not lo.call_names() and not lo.has_arith() and (b.local_ty(list(lo.params())[0]) or '') == 'i128'
+                    and ro.consts() == {0} and not ro.params()):
+                continue
+            edges = {True: b.term(bb)['otherwise'], False: [x['bb'] for x in b.term(bb)['targets'] if x['v'] == 0][0]}
+            truth = lambda v: _CMP[cond[1]](v, 0) != neg
+            zero_only = (not all_paths_err(b, edges[truth(0)])) and all_paths_err(b, edges[truth(1)]) and all_paths_err(b, edges[truth(-1)])
+    ctx.ob('DECSCALE', 'serialize/fixed-of-size-zero-holds-only-zero', bool(zero_only), loc0,
+           'the unscaled value is compared with 0 where no byte is kept: zero goes on, positive and negative are errors: %s' % zero_only)
 
 
 # where a DatumSerializer may be built, and where its node may come from
